@@ -6,7 +6,8 @@ PID = "C20"
 NEEDS = ("analyze",)
 LEAN_TARGETS = ["EtkVerif.Props.C20"]
 RULE = ("structured programs (1-6 blocks; jumps to real jumpdests, non-jumpdest offsets, computed and symbolic targets; "
-        "unreachable blocks; truncated trailing push) and uniform random byte strings, through the real ecfg pipeline; the "
+        "unreachable blocks; truncated trailing push), jumpi whose target IS the following block (one edge for both routes) with constant / "
+        "computed / input conditions, and uniform random byte strings, through the real ecfg pipeline; the "
         "initial graph (nodes and edge multiset from the DOT text) must equal the model's, and the structural predicates "
         "of the property are evaluated on both real renderings. non-trivial = at least 2 blocks and one jump")
 EXHAUSTIVE = {"quick": False, "thorough": False}
@@ -19,6 +20,8 @@ def cases(rng, tier):
     n = 150 if tier == "quick" else 1500
     for _ in range(n):
         cs.append({"line": f"cfg {C.hexs(G.gen_program(rng))}", "exe": "analyze", "tags": ["structured"], "timeout": 1800})
+    for _ in range(n // 3):
+        cs.append({"line": f"cfg {C.hexs(G.gen_fallthrough_jumpi(rng))}", "exe": "analyze", "tags": ["fallthrough-jumpi"], "timeout": 1800})
     for _ in range(n // 3):
         b = bytes(rng.randrange(256) for _ in range(rng.choice([0, 1, 3, 8, 20])))
         b = bytes(x if x != 0x0a else 0x01 for x in b)
